@@ -2,7 +2,7 @@
    ->  small-step machine  ->  compiled code generates exactly the reference semantics' results,
    assembled: what [vm_run] reports for a compiled (wrapped) pattern is what the reference search
    [search_list] says.  Stage 1: programs without a Delegate instruction, patterns without
-   conditionals or variable-length look-behind alternations (predicate [oke]). *)
+   a conditional inside an atomic group, look-around or condition (predicate [oke true]). *)
 From FR Require Import Base State Utf8 Utf8Facts Chars Ast Analyze Sem ExprLemmas SemSound GoBack
                        Vm Compile StateRefine VmRefine Machine CompileCorrect RunCorrect.
 From Coq Require Import Lia NArith.
@@ -22,7 +22,7 @@ Variable e : expr.
 Variable p : prog.
 Hypothesis Hcomp : compile bs (wrap e) = inr p.
 Hypothesis Hnd : nodeleg (p_body p).
-Hypothesis Hok : oke 0 (wrap e).
+Hypothesis Hok : oke true 0 (wrap e).
 Variable fuel : nat.
 Hypothesis Hfuel : length (concat cs) < fuel.
 
@@ -45,7 +45,7 @@ Proof.
   assert (HAt : At (code ++ [IEnd]) 0 code).
   { intros k i Hk. cbn [Nat.add]. rewrite nth_error_app1; auto. apply nth_error_Some. congruence. }
   assert (HNC : 2 <= NC) by (unfold NC; lia).
-  destruct (seg_all cs W cx Htext Hlen bs (code ++ [IEnd]) max_st NC HNC fuel Hfuel (wrap e)
+  destruct (seg_all cs W cx Htext Hlen bs (code ++ [IEnd]) max_st NC HNC fuel Hfuel true (wrap e)
               0 false 0 NC code ns' Hv Hndc HAt Hok (le_n _) ltac:(rewrite ngroups_wrap; unfold NC; lia)) as [Hm G].
   set (v0 := {| v_ix := c_pos cx; v_sl := repeat MAXV ns'; v_aux := [] |}).
   assert (Hcaps0 : caps NC (v_sl v0) = init_caps (S (ngroups e))).
